@@ -540,3 +540,128 @@ pub fn policy_grid(rows: &[Value]) -> Value {
 pub fn policy_grid(_rows: &[Value]) -> Value {
     json!({"rows": 0, "bad": []})
 }
+
+// ---------------------------------------------------------------- saturation through traced owners (spec/SatGraph.tla)
+
+struct SatLeaf(u64);
+unsafe impl Trace for SatLeaf {
+    fn trace(&self, _: &mut Context<'_>) {}
+}
+impl Finalize for SatLeaf {}
+
+struct SatHolder {
+    v: std::cell::RefCell<Vec<Cc<SatLeaf>>>,
+}
+unsafe impl Trace for SatHolder {
+    fn trace(&self, ctx: &mut Context<'_>) {
+        self.v.trace(ctx);
+    }
+}
+impl Finalize for SatHolder {}
+
+/// `rows`: [{n, coll, q, wsc, res, after}] printed by TLC from SatGraph.tla. All the `n` Ccs to one object are owned by
+/// a traced container; an optional collection runs over the live container; then one query.
+pub fn sat_graph(rows: &[Value]) -> Value {
+    #[cfg(feature = "auto")]
+    let _ = rust_cc::config::config(|c| c.set_auto_collect(false));
+    let mut bad: Vec<Value> = Vec::new();
+    let mut done = 0u32;
+    let mut skipped = 0u32;
+    for r in rows {
+        let n = r["n"].as_u64().unwrap() as usize;
+        let coll = r["coll"].as_bool().unwrap();
+        let q = r["q"].as_str().unwrap();
+        if !cfg!(feature = "weak") && q != "clone" {
+            skipped += 1;
+            continue;
+        }
+        let base = rust_cc::state::allocated_bytes().unwrap_or(0);
+        let x = Cc::new(SatLeaf(0xC0FFEE));
+        #[cfg(feature = "weak")]
+        let w = x.downgrade();
+        let holder = Cc::new(SatHolder { v: std::cell::RefCell::new(Vec::with_capacity(n)) });
+        {
+            let mut v = holder.v.borrow_mut();
+            for _ in 0..n - 1 {
+                v.push(x.clone());
+            }
+            v.push(x); // the program keeps no Cc to the object: every one of the n pointers is traced
+        }
+        if coll {
+            // buffer the (live) container and let a collection count every pointer it owns
+            let h2 = holder.clone();
+            drop(h2);
+            collect_cycles();
+        }
+        let count = |h: &Cc<SatHolder>| h.v.borrow()[0].strong_count() as u64;
+        let mut note = |what: &str, got: Value, exp: Value| {
+            if got != exp && bad.len() < 10 {
+                bad.push(json!({"n": n, "coll": coll, "q": q, "what": what, "got": got, "expected": exp}));
+            }
+        };
+        #[cfg(feature = "weak")]
+        note("Weak::strong_count before the query", json!(w.strong_count()), r["wsc"].clone());
+        note("strong_count before the query", json!(count(&holder)), r["n"].clone());
+        let mut extra: Option<Cc<SatLeaf>> = None;
+        let res: &str = match q {
+            "wsc" => "value",
+            #[cfg(feature = "weak")]
+            "upgrade" => match std::panic::catch_unwind(std::panic::AssertUnwindSafe(|| w.upgrade())) {
+                Ok(Some(c)) => {
+                    extra = Some(c);
+                    "ok"
+                }
+                Ok(None) => "none",
+                Err(p) => {
+                    if crate::world::classify(&*p) == "max" {
+                        "panic-max"
+                    } else {
+                        "panic-other"
+                    }
+                }
+            },
+            "clone" => {
+                let first = holder.v.borrow()[0].clone_checked();
+                match first {
+                    Ok(c) => {
+                        extra = Some(c);
+                        "ok"
+                    }
+                    Err(s) => s,
+                }
+            }
+            _ => "skip",
+        };
+        note("result of the query", json!(res), r["res"].clone());
+        note("strong_count after the query", json!(count(&holder)), r["after"].clone());
+        #[cfg(feature = "weak")]
+        note("Weak::strong_count after the query", json!(w.strong_count()), r["after"].clone());
+        if let Some(c) = &extra {
+            note("value reached through the new pointer", json!(c.0), json!(0xC0FFEEu64));
+        }
+        drop(extra);
+        drop(holder);
+        collect_cycles();
+        #[cfg(feature = "weak")]
+        {
+            note("Weak::strong_count after everything was released", json!(w.strong_count()), json!(0));
+            drop(w);
+        }
+        let now = rust_cc::state::allocated_bytes().unwrap_or(0);
+        note("allocated_bytes after everything was released", json!(now), json!(base));
+        done += 1;
+    }
+    json!({"rows": done, "skipped": skipped, "bad": bad})
+}
+
+trait CloneChecked: Sized {
+    fn clone_checked(&self) -> Result<Self, &'static str>;
+}
+impl CloneChecked for Cc<SatLeaf> {
+    fn clone_checked(&self) -> Result<Self, &'static str> {
+        match std::panic::catch_unwind(std::panic::AssertUnwindSafe(|| self.clone())) {
+            Ok(c) => Ok(c),
+            Err(p) => Err(if crate::world::classify(&*p) == "max" { "panic-max" } else { "panic-other" }),
+        }
+    }
+}
